@@ -18,7 +18,8 @@ CONSTANTS
   DEV_OwnerDelViaMetaSilent = FALSE
   DEV_PurgeRacesWriter = FALSE
   DEV_StaleTimeoutUnreg = FALSE
-  DEV_InactiveByeIgnored = TRUE
+  DEV_InactiveByeIgnored = FALSE
+  DEV_DeleteFailLeavesPaused = FALSE
 SPECIFICATION SpecQ
 INVARIANT EveryAddMatchedByOneDone
 INVARIANT EveryRequestAnswered
@@ -27,4 +28,5 @@ INVARIANT TerminatedSessionFullyDetached
 INVARIANT OnlineConsistent
 INVARIANT DeletedTopicRefuses
 INVARIANT NoOrphanTopic
+INVARIANT NoTopicLeftPaused
 INVARIANT GenBound
